@@ -50,16 +50,22 @@ def _battery(S, r, o):
     a = scenarios.put_spellings_battery(S.interp.repo)
     b = scenarios.put_faults_battery(S.interp.repo)
     c = scenarios.put_volumes_battery(S.interp.repo)
-    return {'confirmed': a['confirmed'] or b['confirmed'] or c['confirmed'],
-            'spellings': a, 'faults': b, 'volumes': c}
+    d = scenarios.put_xdev_battery(S.interp.repo, 'move')
+    return {'confirmed': a['confirmed'] or b['confirmed'] or c['confirmed']
+            or d['confirmed'],
+            'problems': (a['problems'] + b['problems'] + c['problems'] +
+                         d.get('problems', []))[:12],
+            'spellings': a, 'faults': b, 'volumes': c, 'cross_device': d}
 
 
 REPLAYERS = {
     'trashcli.put.core.trashee.should_skipped_by_specs': put.should_skip_replayer(),
     'trashcli.fs.RealAtomicWrite.atomic_write': lambda S, r, o: scenarios.put_faults_battery(
         S.interp.repo, [('write', 28), ('close', 5)]),
-    'trashcli.put.fs.real_fs.RealFs.move': lambda S, r, o: scenarios.put_faults_battery(
-        S.interp.repo, [('rename', 16), ('rename', 22), ('rename', 13)]),
+    'trashcli.put.fs.real_fs.RealFs.move': lambda S, r, o: scenarios.merge_batteries(
+        scenarios.put_faults_battery(
+            S.interp.repo, [('rename', 16), ('rename', 22), ('rename', 13)]),
+        scenarios.put_xdev_battery(S.interp.repo, 'move')),
     '': _battery}
 
 
